@@ -14,6 +14,8 @@ CLAIMS = {
             "note": BASE_NOTE, "technique": "Lean 4 proof (invariants over time on a Mealy-machine model) + cycle-level correspondence with the simulated hardware"},
     "C19": {"text": "Partial by nature. Proved in Lean: the model of _Shadow.prepare() (the only unbounded loop and the only state that survives elaborate()) terminates, returns a balanced power-of-two size or refuses exactly when no size can balance, and the unrepaired recursion diverges on a concrete layout; the model's sizes/refusals are compared with the real shadows. Explored, not proved: every component class × generated accepted parameters is elaborated three times (RTLIL equality, metadata unchanged, exception class and raise site, watchdog).",
             "note": BASE_NOTE + " Python exceptions and Amaranth's elaboration are not modelled: the 'never an internal error' clause rests on the sweep.", "technique": "Lean 4 proof (well-founded recursion, exact refusal) for the stateful bookkeeping + runtime elaboration sweep"},
+    "C12": {"text": "Theorems for every width, initial value and input history about the per-bit Lean model of the field actions (RW last-write closed form, RW1C/RW1S joint bit formulas with set-wins-tie, bit independence, R/W pass-through, reserved inert, data = read data); the model is stepped against the real actions in amaranth.sim every cycle.",
+            "note": BASE_NOTE, "technique": "Lean 4 proof (induction over time, per-bit case analysis) + cycle-level correspondence"},
 }
 _TODO = "check not built yet in this round (machinery under construction; see DESIGN.md §11) — not a claim that the technique cannot apply"
 NOT_APPLICABLE = {f"C{i:02d}": _TODO for i in range(1, 21) if f"C{i:02d}" not in CLAIMS}
